@@ -34,7 +34,12 @@ Section Cfg.
   Inductive node :=
   | NLeaf (f : F)
   | NSub (dyn : bool) (vals : list N) (fields : list (str * node))       (* Schema / config type *)
-  | NCfgList (required : bool) (vals : list N) (fields : list (str * node)).  (* ListField(Schema(fields)) *)
+  | NCfgList (required : bool) (vals : list N) (fields : list (str * node))   (* ListField(Schema(fields), default=...) *)
+             (dflt : option (bool * list pyval)).
+  (* dflt: None -- no default (the field holds None until something is assigned); Some (callable, maps) -- default=[maps] or
+     default=lambda: [maps]: ListField.__setdefault__ copies the list and builds ListProxy(cfg, field, copy), i.e. every map is
+     loaded into a fresh configuration of the item schema and validated, whenever a configuration of the enclosing schema is
+     built or the key is reset; a callable default is one more evaluation in the world's count *)
 
   Inductive val :=
   | VLeaf (v : pyval)
@@ -79,40 +84,6 @@ Section Cfg.
     | PDigest _ _ _ => false | POther _ => false
     end.
 
-  (* ---- Config.__init__ without keywords: every field gets its default, marked as default ---- *)
-  Definition eval_default (w : world) (f : F) : world * pyval :=
-    if lcallable f then ({| w_next := w_next w; w_calls := w_calls w + 1 |}, ldefault f (w_calls w))
-    else (w, ldefault f (w_calls w)).
-
-  Fixpoint build_val (w : world) (nd : node) {struct nd} : world * val :=
-    match nd with
-    | NLeaf f => let '(w1, v) := eval_default w f in (w1, VLeaf v)
-    | NCfgList _ _ _ => (w, VLeaf PNone)                    (* ListField(schema) without default *)
-    | NSub _ _ fs =>
-        let i := w_next w in
-        let '(w', d) :=
-          (fix go (w : world) (fs : list (str * node)) {struct fs} : world * list (str * val) :=
-             match fs with
-             | [] => (w, [])
-             | (k, nd') :: r =>
-                 let '(w1, v) := build_val w nd' in
-                 let '(w2, d) := go w1 r in (w2, (k, v) :: d)
-             end) {| w_next := i + 1; w_calls := w_calls w |} fs in
-        (w', VCfg (Cfg i d (map fst fs) []))
-    end.
-
-  Fixpoint build_fields (w : world) (fs : list (str * node)) : world * list (str * val) :=
-    match fs with
-    | [] => (w, [])
-    | (k, nd) :: r =>
-        let '(w1, v) := build_val w nd in
-        let '(w2, d) := build_fields w1 r in (w2, (k, v) :: d)
-    end.
-  Definition build_cfg (w : world) (fs : list (str * node)) : world * cfg :=
-    let i := w_next w in
-    let '(w', d) := build_fields {| w_next := i + 1; w_calls := w_calls w |} fs in
-    (w', Cfg i d (map fst fs) []).
-
   (* ---- Schema._validate (whole-configuration validation) ---- *)
   Definition leaf_values (d : list (str * val)) : list (str * pyval) :=
     flat_map (fun kv => match kv with (k, VLeaf v) => [(k, v)] | _ => [] end) d.
@@ -143,9 +114,9 @@ Section Cfg.
                      (match nd', dget k d with
                       | NLeaf f, Some (VLeaf x) =>
                           match lvalidate f x with Err e => [wrap (path_join pre k) e] | _ => [] end
-                      | NCfgList req _ _, Some (VLeaf PNone) =>
+                      | NCfgList req _ _ _, Some (VLeaf PNone) =>
                           if req then [EValidation (path_join pre k)] else []
-                      | NCfgList req _ _, Some (VList l) =>
+                      | NCfgList req _ _ _, Some (VList l) =>
                           (* field.validate (required / empty), then item.validate() for every configuration in the list *)
                           if req && match l with [] => true | _ => false end then [EValidation (path_join pre k)]
                           else firstn 1 (validate_errs nd' (path_join pre k) (VList l))
@@ -159,7 +130,7 @@ Section Cfg.
         end in
     match nd, v with
     | NSub _ vs fs, VCfg c => cfg_errs vs fs pre c
-    | NCfgList _ vs fs, VList l =>
+    | NCfgList _ vs fs _, VList l =>
         (* the errors of the items, item by item, each at its own path pre[i] *)
         (fix items (l : list cfg) (i : N) {struct l} : list errk :=
            match l with
@@ -185,6 +156,91 @@ Section Cfg.
     | Err e => (c, OErr (wrap (path_join pre k) e))
     | Unmodelled => (c, OUnm)
     end.
+
+  (* ---- Config.__init__ without keywords: every field gets its default, marked as default ---- *)
+  Definition eval_default (w : world) (f : F) : world * pyval :=
+    if lcallable f then ({| w_next := w_next w; w_calls := w_calls w + 1 |}, ldefault f (w_calls w))
+    else (w, ldefault f (w_calls w)).
+
+  (* what a slot holds when building its declared default raised (an item of a default list that does not load or does not
+     validate): the constructor of the enclosing configuration fails in the code; every theorem about built configurations
+     assumes it does not happen (ConfigWF.ok_node), the correspondence never generates such a schema, and an observation
+     containing this value can agree with nothing the implementation reports *)
+  Definition default_failed : pyval := POther 78.
+
+  (* load_tree of one default item: the maps of a default list are restricted to leaf keys of the item schema (anything
+     else: Unmodelled, which build_val turns into default_failed) *)
+  Fixpoint flat_load (d : list (pyval * pyval)) (it : cfg) (fs' : list (str * node)) : cfg * oc :=
+    match d with
+    | [] => (it, OOk)
+    | (PStr kk, xi) :: r =>
+        match fget kk fs' with
+        | Some (NLeaf f) =>
+            match lto_python f xi with
+            | Ok xi' => match set_leaf [] it f kk xi' with
+                        | (it', OOk) => flat_load r it' fs'
+                        | other => other
+                        end
+            | Err e => (it, OErr (wrap kk e))
+            | Unmodelled => (it, OUnm)
+            end
+        | _ => (it, OUnm)
+        end
+    | _ :: _ => (it, OUnm)
+    end.
+
+  Fixpoint build_val (w : world) (nd : node) {struct nd} : world * val :=
+    let build_fs :=
+      (fix go (w : world) (fs : list (str * node)) {struct fs} : world * list (str * val) :=
+         match fs with
+         | [] => (w, [])
+         | (k, nd') :: r =>
+             let '(w1, v) := build_val w nd' in
+             let '(w2, d) := go w1 r in (w2, (k, v) :: d)
+         end) in
+    match nd with
+    | NLeaf f => let '(w1, v) := eval_default w f in (w1, VLeaf v)
+    | NCfgList _ _ _ None => (w, VLeaf PNone)               (* ListField(schema) without default *)
+    | NCfgList _ vs fs' (Some (callable, maps)) =>
+        let w0 := if callable then {| w_next := w_next w; w_calls := w_calls w + 1 |} else w in
+        match
+          (fix items (ts : list pyval) (w : world) (acc : list cfg) {struct ts} : world * option (list cfg) :=
+             match ts with
+             | [] => (w, Some (rev acc))
+             | PDict _ d :: r =>
+                 let i := w_next w in                       (* cfg = item_field(): a fresh item with its own defaults *)
+                 let '(w1, dd) := build_fs {| w_next := i + 1; w_calls := w_calls w |} fs' in
+                 match flat_load d (Cfg i dd (map fst fs') []) fs' with      (* cfg.load_tree(map): keys, then validate *)
+                 | (it1, OOk) =>
+                     match validate_raise (NSub false vs fs') [] (VCfg it1) with
+                     | OOk => items r w1 (it1 :: acc)
+                     | _ => (w1, None)
+                     end
+                 | _ => (w1, None)
+                 end
+             | _ :: _ => (w, None)
+             end) maps w0 []
+        with
+        | (w1, Some l) => (w1, VList l)
+        | (w1, None) => (w1, VLeaf default_failed)
+        end
+    | NSub _ _ fs =>
+        let i := w_next w in
+        let '(w', d) := build_fs {| w_next := i + 1; w_calls := w_calls w |} fs in
+        (w', VCfg (Cfg i d (map fst fs) []))
+    end.
+
+  Fixpoint build_fields (w : world) (fs : list (str * node)) : world * list (str * val) :=
+    match fs with
+    | [] => (w, [])
+    | (k, nd) :: r =>
+        let '(w1, v) := build_val w nd in
+        let '(w2, d) := build_fields w1 r in (w2, (k, v) :: d)
+    end.
+  Definition build_cfg (w : world) (fs : list (str * node)) : world * cfg :=
+    let i := w_next w in
+    let '(w', d) := build_fields {| w_next := i + 1; w_calls := w_calls w |} fs in
+    (w', Cfg i d (map fst fs) []).
 
   Definition is_nil {A} (l : list A) : bool := match l with [] => true | _ => false end.
 
@@ -237,7 +293,7 @@ Section Cfg.
         | POther _ => (w, c, OUnm)
         | _ => (w, c, OErr (EValidation (path_join pre k)))               (* Unable to coerce ... to Config *)
         end
-    | Some (NCfgList req vs fs') =>
+    | Some (NCfgList req vs fs' _) =>
         let p := path_join pre k in
         let items :=                                          (* ListProxy(cfg, field, iterable): items one by one *)
           (fix go (l : list pyval) (i : N) (w : world) (acc : list cfg) {struct l} : world * list cfg * oc :=
@@ -344,8 +400,17 @@ Section Cfg.
   | CSetIdx (k : str) (i : nat) (x : pyval)       (* cfg.k[i] = x *)
   | CValidate (collect : bool)                    (* cfg.validate(collect_errors) *)
   | CLoads (parsed : res pyval)
-  | CInsert (k : str) (i : Z) (x : pyval).        (* cfg.k.insert(i, x) on a list of configurations *)                  (* cfg.loads(document, format): what the format's parser made of the document
-                                                     (the parser is not code of this repository); include fields: Tree.v *)
+  | CInsert (k : str) (i : Z) (x : pyval)         (* cfg.k.insert(i, x) on a list of configurations *)
+  (* (CLoads: cfg.loads(document, format): what the format's parser made of the document -- the parser is not code of
+     this repository; include fields: Tree.v) *)
+  (* a configuration OBJECT built elsewhere (`src`, a value of this model with its own identity) handed over as it is *)
+  | CSetObj (k : str) (src : cfg)                 (* cfg.k = other / cfg["a.k"] = other / Schema(k=other) *)
+  | CAppendObj (k : str) (src : cfg)              (* cfg.k.append(other) *)
+  | CSetIdxObj (k : str) (i : nat) (src : cfg)    (* cfg.k[i] = other *)
+  | CInsertObj (k : str) (i : Z) (src : cfg).     (* cfg.k.insert(i, other) *)
+
+  (* how a leaf field sees a Config object handed to it: an object of some other class (the tag is reserved for this) *)
+  Definition cfg_object : pyval := POther 77.
 
   Fixpoint set_nth_cfg (i : nat) (x : cfg) (l : list cfg) : list cfg :=
     match l, i with
@@ -378,6 +443,10 @@ Section Cfg.
     let n := Z.of_nat len in
     Z.to_nat (if (i <? 0)%Z then Z.max 0 (i + n) else Z.min i n).
 
+  (* a configuration object offered as item number `pos` of the list at path p: value.validate() *)
+  Definition obj_item (p : str) (pos : N) (vs : list N) (fs' : list (str * node)) (src : cfg) : oc :=
+    validate_raise (NSub false vs fs') (path_index p pos) (VCfg src).
+
   Definition apply_cop (w : world) (pre : str) (c : cfg) (dynamic : bool) (vs : list N) (fs : list (str * node)) (o : cop)
     : world * cfg * oc :=
     match o with
@@ -386,7 +455,7 @@ Section Cfg.
     | CReset k => reset_key w c fs k
     | CInsert k i x =>
         match fget k fs, dget k (c_data c) with
-        | Some (NCfgList _ vs' fs'), Some (VList l) =>
+        | Some (NCfgList _ vs' fs' _), Some (VList l) =>
             (* super().insert(index, self._validate(item)): the item is built and loaded first (reported position: len(self)),
                then list.insert clamps the index *)
             match make_item w (path_join pre k) (N.of_nat (length l)) vs' fs' x with
@@ -410,7 +479,7 @@ Section Cfg.
         (w, c, if collect then OErrs errs else match errs with [] => OOk | e :: _ => OErr e end)
     | CAppend k x =>
         match fget k fs, dget k (c_data c) with
-        | Some (NCfgList _ vs' fs'), Some (VList l) =>
+        | Some (NCfgList _ vs' fs' _), Some (VList l) =>
             (* position reported while the item is not in the list yet: len(self) *)
             match make_item w (path_join pre k) (N.of_nat (length l)) vs' fs' x with
             | (w1, Some it, OOk) => (w1, match c with Cfg i d df dy => Cfg i (dset k (VList (l ++ [it])) d) df dy end, OOk)
@@ -420,13 +489,62 @@ Section Cfg.
         end
     | CSetIdx k i x =>
         match fget k fs, dget k (c_data c) with
-        | Some (NCfgList _ vs' fs'), Some (VList l) =>
+        | Some (NCfgList _ vs' fs' _), Some (VList l) =>
             match make_item w (path_join pre k) (N.of_nat (length l)) vs' fs' x with
             | (w1, Some it, OOk) =>
                 if (i <? length l)%nat
                 then (w1, match c with Cfg i0 d df dy => Cfg i0 (dset k (VList (set_nth_cfg i it l)) d) df dy end, OOk)
                 else (w1, c, OErr EIndex)
             | (w1, _, o) => (w1, c, o)
+            end
+        | _, _ => (w, c, ONav)
+        end
+    | CSetObj k src =>
+        (* Config._set_value with a Config value: a leaf field (any `Field`, ListField included) runs field.validate on the
+           object; a Schema / ConfigTypeField slot takes it as it is -- value._parent = self; value._key = key;
+           self._data[key] = value; self._default_value_keys.discard(key) -- no validation, no look at its schema *)
+        match fget k fs with
+        | None => if dynamic then (w, c, OUnm)               (* stored raw in an AnyField registered on the spot *)
+                  else (w, c, OErr EAttribute)
+        | Some (NLeaf f) =>
+            match lvalidate f cfg_object with
+            | Err e => (w, c, OErr (wrap (path_join pre k) e))
+            | _ => (w, c, OUnm)                                (* a raw Config held by a leaf (AnyField): outside the value model *)
+            end
+        | Some (NSub _ _ _) => (w, store c k (VCfg src), OOk)
+        | Some (NCfgList _ _ _ _) => (w, c, OErr (EValidation (path_join pre k)))    (* ListField._validate: value is not a list *)
+        end
+    | CAppendObj k src =>
+        (* ListProxy._validate with a Config item: parent / key / container are set, then value.validate() in raising mode;
+           the item is not in the list yet, so the position it reports is len(self) *)
+        match fget k fs, dget k (c_data c) with
+        | Some (NCfgList _ vs' fs' _), Some (VList l) =>
+            match obj_item (path_join pre k) (N.of_nat (length l)) vs' fs' src with
+            | OOk => (w, match c with Cfg i d df dy => Cfg i (dset k (VList (l ++ [src])) d) df dy end, OOk)
+            | o => (w, c, o)
+            end
+        | _, _ => (w, c, ONav)
+        end
+    | CSetIdxObj k i src =>
+        match fget k fs, dget k (c_data c) with
+        | Some (NCfgList _ vs' fs' _), Some (VList l) =>
+            match obj_item (path_join pre k) (N.of_nat (length l)) vs' fs' src with
+            | OOk =>
+                if (i <? length l)%nat
+                then (w, match c with Cfg i0 d df dy => Cfg i0 (dset k (VList (set_nth_cfg i src l)) d) df dy end, OOk)
+                else (w, c, OErr EIndex)
+            | o => (w, c, o)
+            end
+        | _, _ => (w, c, ONav)
+        end
+    | CInsertObj k i src =>
+        match fget k fs, dget k (c_data c) with
+        | Some (NCfgList _ vs' fs' _), Some (VList l) =>
+            match obj_item (path_join pre k) (N.of_nat (length l)) vs' fs' src with
+            | OOk =>
+                let n := insert_pos i (length l) in
+                (w, match c with Cfg i0 d df dy => Cfg i0 (dset k (VList (firstn n l ++ src :: skipn n l)) d) df dy end, OOk)
+            | o => (w, c, o)
             end
         | _, _ => (w, c, ONav)
         end
@@ -446,7 +564,7 @@ Section Cfg.
         end
     | PItem k i :: r =>
         match fget k fs, dget k (c_data c) with
-        | Some (NCfgList _ vs' fs'), Some (VList l) =>
+        | Some (NCfgList _ vs' fs' _), Some (VList l) =>
             match nth_error l i with
             | Some it =>
                 let '(w1, it', oc1) := at_path r w (path_index (path_join pre k) (N.of_nat i)) it false vs' fs' o in
@@ -454,6 +572,72 @@ Section Cfg.
             | None => (w, c, ONav)
             end
         | _, _ => (w, c, ONav)
+        end
+    end.
+
+  (* ---- histories in which configuration objects are built on the side and then handed over ----
+     XObj r k sdyn svs sfs dops: "build a fresh configuration of the schema (sdyn, svs, sfs), apply dops to it (whatever
+     their outcome), then hand it to the addressed configuration by route r at key k".  The object is built by this very
+     model, in the same world (identities, callable defaults), before the walk to the addressed configuration starts. *)
+  Inductive objroute := RSet | RAppend | RSetIdx (i : nat) | RInsert (i : Z).
+  Inductive xop :=
+  | XOp (o : cop)
+  | XObj (r : objroute) (k : str) (sdyn : bool) (svs : list N) (sfs : list (str * node)) (dops : list (list pstep * cop))
+  (* the object built by the latest XObj that was NOT taken (refused, or never offered because the walk failed): the caller
+     still holds it, may apply further operations to it through its own reference (dops) and offers it again.  An object
+     that was taken lives in the tree from then on (the same operation addressed below its slot); offering it a second
+     time would put one object in two places, which this model does not cover: Unmodelled. *)
+  | XAgain (r : objroute) (k : str) (dops : list (list pstep * cop)).
+
+  Fixpoint run_detached (dops : list (list pstep * cop)) (w : world) (c : cfg) (sdyn : bool) (svs : list N)
+           (sfs : list (str * node)) : world * cfg :=
+    match dops with
+    | [] => (w, c)
+    | (ps, o) :: r => let '(w1, c1, _) := at_path ps w [] c sdyn svs sfs o in run_detached r w1 c1 sdyn svs sfs
+    end.
+  Definition detached (w : world) (sdyn : bool) (svs : list N) (sfs : list (str * node)) (dops : list (list pstep * cop))
+    : world * cfg :=
+    let '(w1, c0) := build_cfg w sfs in run_detached dops w1 c0 sdyn svs sfs.
+  Definition obj_cop (r : objroute) (k : str) (src : cfg) : cop :=
+    match r with
+    | RSet => CSetObj k src
+    | RAppend => CAppendObj k src
+    | RSetIdx i => CSetIdxObj k i src
+    | RInsert i => CInsertObj k i src
+    end.
+  (* stateless reading (no object kept from earlier steps: XAgain has nothing to offer) *)
+  Definition resolve (w : world) (x : xop) : world * option cop :=
+    match x with
+    | XOp o => (w, Some o)
+    | XObj r k sdyn svs sfs dops => let '(w1, src) := detached w sdyn svs sfs dops in (w1, Some (obj_cop r k src))
+    | XAgain _ _ _ => (w, None)
+    end.
+  Definition at_path_x (ps : list pstep) (w : world) (pre : str) (c : cfg) (dynamic : bool) (vs : list N)
+             (fs : list (str * node)) (x : xop) : world * cfg * oc :=
+    match resolve w x with
+    | (w1, Some o) => at_path ps w1 pre c dynamic vs fs o
+    | (w1, None) => (w1, c, OUnm)
+    end.
+
+  (* histories: the object the caller still holds (with the schema it was built from) is threaded from step to step *)
+  Definition kept := option (cfg * (bool * list N * list (str * node)))%type.
+  Definition keep_if_refused (o : oc) (src : cfg) (sch : bool * list N * list (str * node)) : kept :=
+    match o with OOk => None | _ => Some (src, sch) end.
+  Definition at_path_xs (ps : list pstep) (w : world) (last : kept) (pre : str) (c : cfg) (dynamic : bool) (vs : list N)
+             (fs : list (str * node)) (x : xop) : world * kept * cfg * oc :=
+    match x with
+    | XOp o => let '(w1, c1, o1) := at_path ps w pre c dynamic vs fs o in (w1, last, c1, o1)
+    | XObj r k sdyn svs sfs dops =>
+        let '(w1, src) := detached w sdyn svs sfs dops in
+        let '(w2, c1, o1) := at_path ps w1 pre c dynamic vs fs (obj_cop r k src) in
+        (w2, keep_if_refused o1 src (sdyn, svs, sfs), c1, o1)
+    | XAgain r k dops =>
+        match last with
+        | Some (src0, (sdyn, svs, sfs)) =>
+            let '(w1, src) := run_detached dops w src0 sdyn svs sfs in
+            let '(w2, c1, o1) := at_path ps w1 pre c dynamic vs fs (obj_cop r k src) in
+            (w2, keep_if_refused o1 src (sdyn, svs, sfs), c1, o1)
+        | None => (w, None, c, OUnm)
         end
     end.
 
@@ -520,8 +704,8 @@ Section Cfg.
                     else match lto_basic f x with Err e => Err (wrap p e) | o => o end
         | None => match lto_basic f x with Err e => Err (wrap p e) | o => o end
         end
-    | NCfgList _ _ _, VLeaf PNone => Ok PNone
-    | NCfgList _ _ fs, VList l =>
+    | NCfgList _ _ _ _, VLeaf PNone => Ok PNone
+    | NCfgList _ _ fs _, VList l =>
         (* without a mask: ListField.to_basic -> item.to_tree(); with one: item.to_tree(mask) (F5 repair).
            Either way the item is rendered with the mask in force, which is None in the first case. *)
         match
@@ -578,4 +762,7 @@ End Cfg.
 
 Arguments NLeaf {F} f.
 Arguments NSub {F} dyn vals fields.
-Arguments NCfgList {F} required vals fields.
+Arguments NCfgList {F} required vals fields dflt.
+Arguments XOp {F} o.
+Arguments XObj {F} r k sdyn svs sfs dops.
+Arguments XAgain {F} r k dops.
